@@ -346,3 +346,38 @@ def gen_numeric_irs(r, n):
                                                             ("default", r.choice(NUM_RET_SOURCES))))),))
         out.append({"name": "F", "doc": r.choice(["", "Summary line."]), "params": params, "returns": ret, "type": r.choice(["static", "static", "self"])})
     return out
+
+
+# ----------------------------------------------------------------------------------------------
+# type-shape stream: type strings on which the string predicates the code applies ("[" in typ, startswith("Optional["),
+# "Optional" in typ, in simple_types) DISAGREE with their near-equivalents (endswith("]"), "Optional[" in typ, startswith("Optional"), …)
+# ----------------------------------------------------------------------------------------------
+TYPE_SHAPES = [
+    "List[int] | None", "Tuple[int, str] | None", "Dict[str, int] | None",      # subscripted, but not ending in "]" (PEP 604)
+    "int | None", "str | None",                                                  # PEP 604 without any bracket
+    "List[Optional[int]]", "Dict[str, Optional[int]]",                           # "Optional[" inside, not at the start
+    "Optional[List[int]]", "Tuple[int, str]", "Dict[str, int]",                  # nested / several arguments
+    "OptionalConfig", "strategy.Kind", "integer",                                # names that merely begin like Optional / a simple type
+]
+SHAPE_RET_DEFAULTS = [None, "K", "```foo(3)```"]
+
+
+def gen_typeshape_irs(r, rounds=3):
+    """deterministic coverage: in round j interface k has the return type TYPE_SHAPES[k] with return default SHAPE_RET_DEFAULTS[(j + k) % 3],
+    one parameter without default typed TYPE_SHAPES[(k + 3) % N] and one with a code default typed TYPE_SHAPES[(k + 7) % N]"""
+    N = len(TYPE_SHAPES)
+    out = []
+    for j in range(rounds):
+        for k in range(N):
+            names = r.sample(NAMES, 2)
+            params = OrderedDict()
+            params[names[0]] = OrderedDict((("doc", r.choice(MORE_DOCS)), ("typ", TYPE_SHAPES[(k + 3 + j) % N])))
+            params[names[1]] = OrderedDict((("doc", r.choice(MORE_DOCS)), ("typ", TYPE_SHAPES[(k + 7 + 2 * j) % N]),
+                                            ("default", r.choice(["```foo(3)```", "```bar(1)```"]))))
+            rt = OrderedDict((("doc", r.choice(MORE_DOCS)), ("typ", TYPE_SHAPES[k])))
+            d = SHAPE_RET_DEFAULTS[(j + k) % 3]
+            if d is not None:
+                rt["default"] = d
+            out.append({"name": "F", "doc": r.choice(["", "Summary line."]), "params": params, "returns": OrderedDict((("return_type", rt),)),
+                        "type": ("static", "self", "static")[j % 3]})
+    return out
